@@ -92,6 +92,10 @@ CntOf(ws, c) ==
       f[k \in 0..MAXW] == IF k = 0 THEN 0 ELSE f[k - 1] + (IF ws[k].live THEN per(k) ELSE 0)
   IN f[MAXW]
 
+(* values built by a deserialization attempt that returns an error are not owned by any world;
+   whether they are released is outside the properties (reported as INFO, never as a failure) *)
+FailedDeser == E.op = "deser_mut" /\ ~E.res.ok
+LeakProp == IF FailedDeser THEN "INFO" ELSE "C04"
 LedgerChecks ==
   /\ Chk("C04", "drop-of-value-not-alive", LedT({"drop"}) \subseteq (tok \cup LedT(Creates)))
   /\ Chk("C04", "value-dropped-twice-in-one-call", NDropsT = Cardinality(LedT({"drop"})))
@@ -100,9 +104,11 @@ LedgerChecks ==
   /\ Chk("C04", "counted-drop-underflow", \A c \in Counted : CntNext[c] >= 0)
   /\ Chk("C04", "value-aliased-in-worlds",
             Cardinality(TokOccur(PostWs)) = Cardinality(TokSet(PostWs)))
-  /\ Chk("C04", "leak-or-premature-drop(tokened)", TokNext = TokSet(PostWs))
-  /\ Chk("C04", "leak-or-premature-drop(Z)", CntNext["Z"] = CntOf(PostWs, "Z"))
-  /\ Chk("C04", "leak-or-premature-drop(B)", CntNext["B"] = CntOf(PostWs, "B"))
+  /\ Chk(LeakProp, "leak-or-premature-drop(tokened)", TokNext = TokSet(PostWs))
+  /\ Chk(LeakProp, "leak-or-premature-drop(Z)", CntNext["Z"] = CntOf(PostWs, "Z"))
+  /\ Chk(LeakProp, "leak-or-premature-drop(B)", CntNext["B"] = CntOf(PostWs, "B"))
+  /\ Chk("C04", "premature-drop-during-failed-deserialization",
+         FailedDeser => TokSet(PostWs) \subseteq TokNext)
   /\ Chk("C05", "corrupt-value-at-drop", \A k \in DOMAIN E.led : E.led[k].k # "bad")
 
 -----------------------------------------------------------------------------
@@ -115,7 +121,9 @@ HAllocs == {<<HeapEvs[k].id, HeapEvs[k].s, HeapEvs[k].al>> : k \in {k \in DOMAIN
            \cup {<<HeapEvs[k].nid, HeapEvs[k].ns, HeapEvs[k].al>> :
                     k \in {k \in DOMAIN HeapEvs : HeapEvs[k].k = "realloc" /\ HeapEvs[k].nid > 0}}
 HFreed == {HeapEvs[k].id : k \in {k \in DOMAIN HeapEvs : HeapEvs[k].k \in {"dealloc", "realloc"} /\ HeapEvs[k].id > 0}}
-HeapNext == {b \in heap \cup HAllocs : b[1] \notin HFreed}
+HeapNext == IF E.op = "deser_mut" /\ ~E.res.ok
+            THEN {b \in heap : b[1] \notin HFreed}     \* blocks of a failed attempt belong to no world
+            ELSE {b \in heap \cup HAllocs : b[1] \notin HFreed}
 HeapChecks ==
   /\ Chk("C05", "free-of-dead-or-unknown-block",
          \A k \in DOMAIN HeapEvs : HeapEvs[k].k \in {"dealloc", "realloc"} => HeapEvs[k].st = "live")
@@ -124,7 +132,7 @@ HeapChecks ==
              (HeapEvs[k].s = HeapEvs[k].ks /\ HeapEvs[k].al = HeapEvs[k].ka))
   /\ Chk("C05", "free-of-untraced-library-block",
          \A k \in DOMAIN HeapEvs : (HeapEvs[k].k \in {"dealloc", "realloc"} /\ HeapEvs[k].id > 0 /\ HeapEvs[k].st = "live") =>
-             \E b \in heap \cup HAllocs : b[1] = HeapEvs[k].id /\ b[2] = HeapEvs[k].ks)
+             (\E b \in heap \cup HAllocs : b[1] = HeapEvs[k].id /\ b[2] = HeapEvs[k].ks) \/ "untraced" \in DOMAIN E)
   /\ Chk("C05", "block-allocated-twice", Cardinality({b[1] : b \in HAllocs}) = Cardinality(HAllocs)
                                           /\ {b[1] : b \in HAllocs} \cap {b[1] : b \in heap} = {})
   /\ Chk("C05", "memory-not-returned-at-world-drop",
@@ -333,6 +341,19 @@ OpSerde ==
           /\ issued' = [issued EXCEPT ![E.dst] = issued[E.w]]
      ELSE UNCHANGED issued
 
+(* C11: world w was serialized, the encoding mutated, and deserialization attempted into slot dst.
+   Either an error, or a world that passes every structural and behavioural check from now on. *)
+OpDeserMut ==
+  /\ IF E.res.ok
+     THEN /\ Chk("C11", "ok-but-no-world", PostWs[E.dst].live)
+          /\ Chk("C11", "unmodified-input-changed-content",
+                 E.res.same => Vals(Ents(PostWs[E.dst])) = Vals(Ents(PreWs[E.w])))
+          /\ issued' = [issued EXCEPT ![E.dst] = IF PostWs[E.dst].live THEN DOMAIN Ents(PostWs[E.dst]) ELSE {}]
+     ELSE /\ Chk("C11", "error-but-world-returned", ~PostWs[E.dst].live)
+          /\ Chk("C11", "unmodified-input-rejected", ~E.res.same)
+          /\ UNCHANGED issued
+  /\ Chk("C10", "source-changed-by-serialization", Ents(PostWs[E.w]) = Ents(PreWs[E.w]))
+
 OpGetMut ==
   LET r == ResSeq[E.r + 1] IN
   /\ Chk("C15", "get_mut-wrong-resource",
@@ -452,7 +473,7 @@ OpQuery ==
 (* Lock-step twins (C06 / C10): an op flagged m=2 repeats the previous op on  *)
 (* the twin world and must have the same results and leave the same content.  *)
 Touched ==
-  CASE E.op \in {"clone", "serde"} -> {E.dst}
+  CASE E.op \in {"clone", "serde", "deser_mut"} -> {E.dst}
     [] E.op = "reset" -> Worlds
     [] E.op = "panicked" -> Worlds
     [] OTHER -> {E.w}
@@ -526,6 +547,7 @@ FullStep ==
        [] E.op = "clone" -> OpClone
        [] E.op = "clone_from" -> OpCloneFrom
        [] E.op = "serde" -> OpSerde
+       [] E.op = "deser_mut" -> OpDeserMut
        [] E.op = "getmut" -> OpGetMut
        [] E.op = "viewres" -> OpViewRes
        [] E.op = "query" -> OpQuery
